@@ -1,7 +1,13 @@
 #!/bin/bash
-# usage: muttest.sh <prop> <file> <sed-expr>  — applies a one-line mutation to /repo, runs the check, restores.
+# usage: [VERIF_REPO=/tmp/repo_copy] muttest.sh <prop> <file> <sed-expr>
+# Applies a one-line mutation to the repository copy (default /repo), checks that it still
+# builds and passes its own tests, runs ./check <prop> against it, and restores the file.
 prop=$1; file=$2; expr=$3
-cd /repo && cp $file /tmp/muttest.bak && sed -i "$expr" $file && if diff -q $file /tmp/muttest.bak >/dev/null; then echo "MUTATION DID NOT APPLY"; fi
+R=${VERIF_REPO:-/repo}
+V=$(cd "$(dirname "$0")/.." && pwd)
+cd $R && cp $file /tmp/muttest.$$.bak && sed -i "$expr" $file
+if diff -q $file /tmp/muttest.$$.bak >/dev/null; then echo "MUTATION DID NOT APPLY"; fi
 (go build ./... 2>&1 | head -3)
-cd /verif && ./check $prop | tail -3
-cd /repo && git checkout -- . && git status --short | head -3
+if [ -n "$MUT_RUN_TESTS" ]; then go test -mod=mod -vet=off -count=1 ./... 2>&1 | tail -3; fi
+cd $V && VERIF_REPO=$R ./check $prop | tail -3
+cd $R && cp /tmp/muttest.$$.bak $file && rm /tmp/muttest.$$.bak && git status --short | head -3
